@@ -55,6 +55,11 @@ func (m modelsim) Gen(prop, tier string, ts *sim.Tapes) *Case {
 	prog := work.GenProgram(ts, cfg, p)
 	c := &Case{Prop: prop, Engine: m.Name(), Tier: tier, Seed: ts.Seed, Run: ts.Run, Prog: prog,
 		Tapes: map[string][]uint64{}, Params: map[string]int{}}
+	if prop == "C12" && ts.Run%96 == 40 {
+		// the in-system form of the >= 0xFFFF-entries freelist convention (props/hugefreelist.go)
+		c.Params["hugefreelist"] = 1
+		c.Prog = &work.Program{Cfg: cfg}
+	}
 	if prop == "C05" && ts.Run%64 == 9 {
 		// the scenario with more than 65535 uncommitted keys in one leaf (props/hugeleaf.go)
 		c.Params["hugeleaf"] = 1
@@ -65,6 +70,10 @@ func (m modelsim) Gen(prop, tier string, ts *sim.Tapes) *Case {
 
 func (m modelsim) Run(c *Case, dir string) *Outcome {
 	out := &Outcome{}
+	if c.Params["hugefreelist"] == 1 {
+		hugeFreelist(c, dir, out)
+		return out
+	}
 	if c.Params["hugeleaf"] == 1 {
 		hugeLeaf(c, dir, out)
 		return out
@@ -149,6 +158,6 @@ func init() {
 		Rule:   "one evaluation = one seeded program (biased to nested bucket create/delete/move); after every commit and reopen the file is decoded independently and every page below the high-water mark classified; compared with Tx.Check, Stats and Tx.Page. distinct as for C04",
 		Assume: []string{"independent decoder dec/ implements the published v2 layout"}})
 	register(&Info{Prop: "C12", Engine: altEngine{[]Engine{ms, ms, foreignsim{}}}, Level: "exploration", QuickS: 45, ThoroughS: 600, RealStub: real,
-		Rule:   "one evaluation = one seeded program; after every commit and reopen the file bytes are decoded by dec/ (published v2 layout only) and compared with the API dump and the model; plus the golden corpus. Every third run index is the foreign-file arm: the content reached by a seeded history is laid out as a version-2 file by an independent writer (dec/enc.go) with layout choices the current writer never makes but the format allows (arbitrary leaf/branch fill, scattered pages with free gaps, freelist page anywhere or absent, several elements on a page with overflow, gaps between element data, small buckets paged or inline, trailing pages beyond the high-water mark, newest meta in either slot); the real code must open it (read-only and read-write under tape-chosen options), dump exactly that content, agree with the independent accounting (Tx.Check, Stats, Tx.Page), and carry a second seeded history with reopenings on it, checked after every commit. distinct as for C04",
+		Rule:   "one evaluation = one seeded program; after every commit and reopen the file bytes are decoded by dec/ (published v2 layout only) and compared with the API dump and the model; plus the golden corpus. One run index in 96 is the huge-freelist scenario: the real database frees more than 65535 pages, writes that list (0xFFFF count convention, multi-page freelist), and the decoder, Stats, Tx.Check and a reopen with the other backend must agree on it, also after the list shrinks below the threshold again. Every third run index is the foreign-file arm: the content reached by a seeded history is laid out as a version-2 file by an independent writer (dec/enc.go) with layout choices the current writer never makes but the format allows (arbitrary leaf/branch fill, scattered pages with free gaps, freelist page anywhere or absent, several elements on a page with overflow, gaps between element data, small buckets paged or inline, trailing pages beyond the high-water mark, newest meta in either slot); the real code must open it (read-only and read-write under tape-chosen options), dump exactly that content, agree with the independent accounting (Tx.Check, Stats, Tx.Page), and carry a second seeded history with reopenings on it, checked after every commit. distinct as for C04",
 		Assume: []string{"independent decoder dec/ implements the published v2 layout", "the independent encoder is validated against the decoder on every file before the real code sees it (a disagreement is harness trouble, never a verdict)"}})
 }
